@@ -857,4 +857,82 @@ theorem decodeOffsetValueV3_ok_inv {s s' : DState} {o ts : Int} (h : decodeOffse
   obtain ⟨hts, hb4, _⟩ := readI64_ok e4
   exact ⟨le, md, hle, hm, ho, hts, by rw [hb1, hb2, hb3, hb4]; simp only [List.append_assoc]⟩
 
+theorem malformed_commit_skipped (accept : Accept) (order : Int) (k v : Bytes) (kv : Int)
+    (krest : Bytes) (hk : k = encI16 kv ++ krest) (hkv : kv = 0 ∨ kv = 1)
+    (hreq : (processMessage accept order k v).reqs ≠ []) :
+    ∃ (m : OffsetCommit) (rest₁ rest₂ : Bytes), m.WF ∧ k = m.encKey ++ rest₁ ∧ v = m.encValue ++ rest₂ ∧
+      (processMessage accept order k v).reqs =
+        [.offset (strVal m.group) (strVal m.topic) m.partition m.offset m.timestamp order] := by
+  have hpm : processMessage accept order k v = decodeKeyAndOffset accept order krest v := by
+    rw [hk]
+    simp only [processMessage, readI16_enc kv krest 0 (inRange2_of_01 hkv), hkv, if_true]
+  rw [hpm] at hreq ⊢
+  unfold decodeKeyAndOffset at hreq ⊢
+  cases e1 : decodeOffsetKeyV0 ⟨krest, 0⟩ with
+  | panic s1 => rw [e1] at hreq; exact absurd rfl hreq
+  | fail s1 => rw [e1] at hreq; exact absurd rfl hreq
+  | ok key s1 =>
+    rw [e1] at hreq
+    dsimp only at hreq ⊢
+    obtain ⟨g, t, hg, ht, hp, hkg, hkt, hb1⟩ := decodeOffsetKeyV0_ok_inv e1
+    dsimp only at hb1
+    have hkeq : ∀ (vv o le : Int) (md : Option Bytes) (ts : Int),
+        k = (OffsetCommit.mk kv g t key.partition vv o le md ts).encKey ++ s1.buf := by
+      intro vv o le md ts
+      rw [hk, hb1]
+      simp only [OffsetCommit.encKey, List.append_assoc]
+    by_cases hacc : (!accept key.group) = true
+    · rw [if_pos hacc] at hreq; exact absurd rfl hreq
+    rw [if_neg hacc] at hreq ⊢
+    by_cases hv0 : v.length = 0
+    · rw [if_pos hv0] at hreq; exact absurd rfl hreq
+    rw [if_neg hv0] at hreq ⊢
+    cases e2 : readI16 ⟨v, s1.alloc⟩ with
+    | panic s2 => rw [e2] at hreq; exact absurd rfl hreq
+    | fail s2 => rw [e2] at hreq; exact absurd rfl hreq
+    | ok ver s2 =>
+      rw [e2] at hreq
+      dsimp only at hreq ⊢
+      obtain ⟨_, hb2, _⟩ := readI16_ok e2
+      dsimp only at hb2
+      by_cases h01 : ver = 0 ∨ ver = 1
+      · rw [if_pos h01] at hreq ⊢
+        dsimp only at hreq ⊢
+        cases e3 : decodeOffsetValueV0 s2 with
+        | panic s3 => rw [e3] at hreq; exact absurd rfl hreq
+        | fail s3 => rw [e3] at hreq; exact absurd rfl hreq
+        | ok ots s3 =>
+          obtain ⟨o, ts⟩ := ots
+          dsimp only
+          obtain ⟨md, hm, ho, hts, hb3⟩ := decodeOffsetValueV0_ok_inv e3
+          have hv013 : ver = 0 ∨ ver = 1 ∨ ver = 3 := by omega
+          have h0 : InRange 4 0 := by unfold InRange; decide
+          refine ⟨⟨kv, g, t, key.partition, ver, o, 0, md, ts⟩, s1.buf, s3.buf,
+            ⟨hkv, hv013, hg, ht, hm, hp, ho, h0, hts⟩, hkeq _ _ _ _ _, ?_, ?_⟩
+          · have h3 : ¬ ver = 3 := by omega
+            rw [hb2, hb3]
+            simp only [OffsetCommit.encValue, if_neg h3, List.append_assoc, List.nil_append]
+          · dsimp only
+            rw [hkg, hkt]
+      · rw [if_neg h01] at hreq ⊢
+        by_cases h3 : ver = 3
+        · rw [if_pos h3] at hreq ⊢
+          dsimp only at hreq ⊢
+          cases e3 : decodeOffsetValueV3 s2 with
+          | panic s3 => rw [e3] at hreq; exact absurd rfl hreq
+          | fail s3 => rw [e3] at hreq; exact absurd rfl hreq
+          | ok ots s3 =>
+            obtain ⟨o, ts⟩ := ots
+            dsimp only
+            obtain ⟨le, md, hle, hm, ho, hts, hb3⟩ := decodeOffsetValueV3_ok_inv e3
+            have hv013 : ver = 0 ∨ ver = 1 ∨ ver = 3 := by omega
+            refine ⟨⟨kv, g, t, key.partition, ver, o, le, md, ts⟩, s1.buf, s3.buf,
+              ⟨hkv, hv013, hg, ht, hm, hp, ho, hle, hts⟩, hkeq _ _ _ _ _, ?_, ?_⟩
+            · rw [hb2, hb3]
+              simp only [OffsetCommit.encValue, if_pos h3, List.append_assoc]
+            · dsimp only
+              rw [hkg, hkt]
+        · rw [if_neg h3] at hreq
+          exact absurd rfl hreq
+
 end Burrow.Proofs.DecodeSafe
